@@ -191,6 +191,47 @@ def rule_tuples_shape(repo, rep):
       rep.derived(Rl, '_util.check_input', site(f, c))
 
 
+def rule_label_alphabet(repo, rep):
+  R = 'R-FORM:pair-label-alphabet'
+  rep.rule(R, 'check_y_valid_values_for_pairs raises ValueError unless '
+           '|y| == 1 element-wise, tested on the labels as given (no cast '
+           'that could map other values onto +-1)')
+  f = repo.get_func('_util.check_y_valid_values_for_pairs')
+  y = f.params()[0]
+  rebinds = [n for n in ast.walk(f.node) if isinstance(n, ast.Assign) and
+             any(isinstance(t, ast.Name) and t.id == y for t in n.targets)]
+  for rb in rebinds:
+    txt = ast.unparse(rb.value)
+    if txt in ('np.asarray(%s)' % y, 'np.asanyarray(%s)' % y,
+               'np.array(%s)' % y, 'np.ravel(%s)' % y):
+      continue
+    rep.refuted(R, '_util.check_y_valid_values_for_pairs:rebind',
+                site(f, rb), 'the labels are transformed before the test '
+                '(%s = %s): values other than +-1 can pass' % (y, txt))
+  tests = [n for n in ast.walk(f.node) if isinstance(n, ast.If)]
+  ok = False
+  for t in tests:
+    if any(isinstance(x, ast.Raise) for x in t.body):
+      txt = ast.unparse(t.test)
+      if txt in ('not np.array_equal(np.abs(%s), np.ones_like(%s))' % (y, y),
+                 'not np.all(np.abs(%s) == 1)' % y,
+                 'not (np.abs(%s) == 1).all()' % y,
+                 'np.any(np.abs(%s) != 1)' % y,
+                 '(np.abs(%s) != 1).any()' % y,
+                 'not np.isin(%s, [-1, 1]).all()' % y,
+                 'not np.all(np.isin(%s, [-1, 1]))' % y):
+        ok = True
+      else:
+        rep.unknown(R, '_util.check_y_valid_values_for_pairs:test',
+                    site(f, t), 'label test %s not in the table' % txt)
+        return
+  if ok and not rebinds:
+    rep.derived(R, '_util.check_y_valid_values_for_pairs', site(f))
+  elif not ok:
+    rep.refuted(R, '_util.check_y_valid_values_for_pairs', site(f),
+                'no test rejecting labels outside {-1, +1}')
+
+
 def rule_n_components(repo, rep):
   R = 'R-DOM:n-components-checked'
   rep.rule(R, '_check_n_components is called on every path of fit of the '
@@ -493,6 +534,7 @@ def check(repo, rep, tier):
   rule_taint(repo, rep)
   rule_validators(repo, rep)
   rule_tuples_shape(repo, rep)
+  rule_label_alphabet(repo, rep)
   rule_n_components(repo, rep)
   rule_calibration_first(repo, rep)
   from . import c05
